@@ -52,9 +52,22 @@ def build_verus(run):
         f.body_prologue("proof { lemma_bounds(src@, src@.len() as int); }")
         unit.add(f)
     unit.raw("} // verus!\n")
-    build_update(run, unit)
+    # the change loop of incremental_update: a lost anchor there must not take the proof of pos_to_byte_index and the bounded contract
+    # with it (the check is then undecided for that part only, and a violation found by another part is still reported)
+    from vlib.extract import LostAnchor
+    saved = (list(unit.parts) if hasattr(unit, 'parts') else None, list(unit.snippets))
+    try:
+        build_update(run, unit)
+    except (Undecided, LostAnchor, EarlyExit) as e:
+        restore_unit(unit, saved)
+        run.extra['vacuity_probe_labels'] = [l for l in run.extra.get('vacuity_probe_labels', []) if 'incremental_update' not in l]
+        run.undecided.append("change loop of incremental_update not under contract in this run: %s" % e)
     run.sample({"function": "els::util::pos_to_byte_index", "ensures": "for every document (< 1 Gi chars) and position: the byte offset of the first character k with line_of(k) == line and (col_of(k) >= character in UTF-16 units, or k is the end of its line - LF or the CR of a CRLF), else the end of the document; always a character boundary <= len; the slice src[index+1..] cannot panic; counters do not overflow; terminates"})
     return unit
+
+class EarlyExit(Exception):
+    pass
+
 
 U_SPEC = """requires
         // a notification that follows the LSP specification: every change is incremental (has a range) and no range ends before it starts
@@ -73,6 +86,12 @@ U_LOOP = """invariant
         decreases verif_cs@.len() - verif_i,"""
 
 
+def restore_unit(unit, saved):
+    if saved[0] is not None:
+        unit.parts = saved[0]
+    unit.snippets = saved[1]
+
+
 def build_update(run, unit):
     """Second verified function: the change loop of FileCache::incremental_update (real text; the lookup of the entry, the version guard,
     the VFS update and the re-lexing around it are sliced away, R2s), checked against the CONTRACT of pos_to_byte_index."""
@@ -85,13 +104,13 @@ def build_update(run, unit):
         f.rw('R5', r'(pub(\(crate\))?\s+)?fn incremental_update\(&self, params: DidChangeTextDocumentParams\)', 'fn incremental_update(code0: &String, content_changes: Vec<TextDocumentContentChangeEvent>) -> String', expect=1)
         # R2s: slice - everything before the working copy is taken and everything after the loop is dropped; the value stored is returned
         mask = make_mask(f.text)
-        m0 = re.search(r'let mut (\w+) = entry\.code\.clone\(\);', mask)
+        m0 = re.search(r'let mut (\w+) = (\w+)\.code\.clone\(\);', mask)
         if not m0:
-            raise Undecided("incremental_update: no `let mut <code> = entry.code.clone();`")
-        code = m0.group(1)
+            raise Undecided("incremental_update: no `let mut <code> = <entry>.code.clone();`")
+        code, entry = m0.group(1), m0.group(2)
         ob = mask.index('{')
         pre = f.text[ob + 1:m0.start()]
-        if not re.search(r'entry\.ver >= params\.text_document\.version', pre) or 'get_mut(&uri)' not in pre:
+        if not re.search(r'\b%s\.ver >= ' % entry, pre) or 'get_mut(&uri)' not in pre:
             raise Undecided("incremental_update: the sliced-away prefix is no longer the entry lookup and the version guard")
         lm = re.search(r'\bfor (\w+) in params\.content_changes \{', mask)
         if not lm or lm.start() < m0.end() or mask[m0.end():lm.start()].strip():
@@ -102,15 +121,19 @@ def build_update(run, unit):
         suf = f.text[lc + 1:fe]
         smask = make_mask(suf)
         uses = [m for m in re.finditer(r'(?<![.\w])%s\b' % code, smask)]
-        stores = [m for m in uses if re.search(r'\bentry\.code = $', smask[:m.start()]) and smask[m.end():].lstrip().startswith(';')]
+        stores = [m for m in uses if re.search(r'\b%s\.code = $' % entry, smask[:m.start()]) and smask[m.end():].lstrip().startswith(';')]
         clones = [m for m in uses if smask[m.end():].startswith('.clone()')]
         if len(stores) != 1 or len(stores) + len(clones) != len(uses) or not re.search(r'VFS\.update\([^;]*\b%s\.clone\(\)\)' % code, smask):
             raise Undecided("incremental_update: after the loop the working copy is no longer stored unchanged (expected: entry.code = code; once, every other use a code.clone(), VFS.update(.., code.clone()))")
+        # the store must be reached: no way out of the function between the loop and `entry.code = code;`
+        before_store = smask[:stores[0].start()]
+        if re.search(r'\breturn\b|\?\s*[;.)]|\bbreak\b|\bcontinue\b|\bpanic!|\bunreachable!|\bexit\(', before_store):
+            raise EarlyExit("incremental_update: a way out of the function (return / ? / panic) stands between the change loop and the store of the working copy")
         f.replace_range('R2s', lc + 1, fe, '\n        %s\n    ' % code, 'slice: after the change loop (VFS.update(path, code.clone()), re-lexing of code.clone(), entry.code = code, entry.ver, entry.token_stream) dropped; the working copy is returned')
         f.replace_range('R2s', ob + 1, m0.start(), '\n        ', 'slice: entry lookup (files.borrow_mut().get_mut(&uri), early return) and version guard (entry.ver >= version: log and return) dropped')
-        f.rw('R5', r'\bentry\.code\.clone\(\)', 'w_clone(code0)', expect=1)
+        f.rw('R5', r'\b%s\.code\.clone\(\)' % entry, 'w_clone(code0)', expect=1)
         f.rw('R11', r'\bfor %s in params\.content_changes \{' % change, 'let verif_cs = content_changes;\n        let mut verif_i: usize = 0;\n        while verif_i < verif_cs.len() {\n            let %s = &verif_cs[verif_i]; verif_i = verif_i + 1;' % change, expect=1)
-        f.rw('R5', r'\bentry\.code\b(?!\s*=[^=])', 'code0', expect='*')   # the entry's text at entry of the function is the parameter
+        f.rw('R5', r'\b%s\.code\b(?!\s*=[^=])' % entry, 'code0', expect='*')   # the entry's text at entry of the function is the parameter
         f.rw('R4', r'\butil::pos_to_byte_index\(&(\w+), ', r'pos_to_byte_index(\1.as_str(), ', expect='*')
         mr = re.search(r'Some\((\w+)\) = %s\.range\b' % change, make_mask(f.text))
         mp = re.search(r'\b%s\.replace_range\((\w+)\.\.(\w+), &%s\.text\);' % (code, change), make_mask(f.text))
